@@ -44,6 +44,36 @@ impl Api for Server {
   }
 
   fn get_blockchain_info(&self) -> Result<GetBlockchainInfoResult, jsonrpc_core::Error> {
+    #[cfg(ordinals_ord_verif)]
+    {
+      let mode = crate::VERIF_HEADERS.load(std::sync::atomic::Ordering::SeqCst);
+      if mode != -1 {
+        let tip = u64::try_from(self.state().hashes.len().saturating_sub(1)).unwrap();
+        return Ok(GetBlockchainInfoResult {
+          chain: self.network,
+          blocks: tip,
+          headers: if mode == -2 {
+            tip
+          } else {
+            u64::try_from(mode).unwrap()
+          },
+          best_block_hash: self.state().hashes[0],
+          difficulty: 0.0,
+          median_time: 0,
+          verification_progress: 0.0,
+          initial_block_download: false,
+          chain_work: Vec::new(),
+          size_on_disk: 0,
+          pruned: false,
+          prune_height: None,
+          automatic_pruning: None,
+          prune_target_size: None,
+          softforks: HashMap::new(),
+          warnings: StringOrStringArray::String(String::new()),
+        });
+      }
+    }
+
     Ok(GetBlockchainInfoResult {
       chain: self.network,
       blocks: 0,
